@@ -15,6 +15,11 @@ Local Open Scope N_scope.
     destination host with the UDP destination port, with the identifier of an echo /
     traceroute reply, with the UDP source port or the request identifier quoted by an SCMP
     error, or the address registered for the SCION destination service. *)
+(*  Audit follow-up: for SCMP replies / errors "the SCION destination host" is here the raw
+    destination address bytes read as an IP address; the code does not look at the address type.
+    The statement that also demands an IP address type is refuted below
+    ([C44_scmp_dst_type_refuted], open finding scmp-dst-type-unchecked) and holds outside that
+    class ([C44_dst_strict_except_known]). *)
 Theorem C44_dst_only_from_packet : forall c d ul prev a port,
   process c d ul prev = Forward a port ->
   exists p, d = Pkt p /\ legit_dest c p a port.
@@ -101,18 +106,51 @@ Print Assumptions C44_reply_hosts.
 
 (** Reversal is what it says: on a path as the decoder delivers it, the hop fields come in
     the opposite order, the info fields in the opposite order with the construction
-    direction flipped, and reversing twice gives the path back. *)
+    direction flipped, the segment lengths in the opposite order, the current hop / info
+    field pointers are mirrored (the reply starts where the request stood), and reversing
+    twice gives the path back. *)
 Theorem C44_reverse_path : forall p q,
   wf_spath p -> reverse_spath p = Some q ->
   sp_hops q = rev (sp_hops p) /\
   sp_infos q = map flip_info (rev (sp_infos p)) /\
+  sp_chf q = num_hops p - 1 - sp_chf p /\
+  sp_ci q = num_inf p - 1 - sp_ci p /\
+  num_inf q = num_inf p /\ num_hops q = num_hops p /\
+  firstn (N.to_nat (num_inf p)) [sp_s0 q; sp_s1 q; sp_s2 q] =
+    rev (firstn (N.to_nat (num_inf p)) [sp_s0 p; sp_s1 p; sp_s2 p]) /\
   wf_spath q /\ reverse_spath q = Some p.
 Proof.
   intros p q W H. split; [now apply reverse_spath_hops|]. split.
-  - apply reverse_spath_infos; [assumption|]. now destruct W as (_ & _ & _ & L & _).
-  - now apply reverse_spath_involutive.
+  { apply reverse_spath_infos; [assumption|]. now destruct W as (_ & _ & _ & L & _). }
+  destruct (reverse_spath_pointers p q W H) as [P1 P2].
+  destruct (reverse_spath_seglens p q W H) as (S1 & S2 & S3).
+  repeat (split; [assumption|]). now apply reverse_spath_involutive.
 Qed.
 Print Assumptions C44_reverse_path.
+
+(** The other path types: a one-hop path (second hop filled in) is answered over the two-hop
+    SCION path with the hop fields exchanged, against construction direction, standing at
+    hop 0 — and not at all while the second hop is empty; an EPIC path over the reversal of the
+    SCION path it contains; an empty path over the empty path; an unregistered type never.
+    The answer is always announced as SCION or empty. *)
+Theorem C44_reverse_other_paths :
+  (forall i h1 h2,
+     reverse_path (POneHop i h1 h2) =
+       if h_in h2 =? 0 then None else
+       Some (PScion {| sp_ci := 0; sp_chf := 0; sp_s0 := 2; sp_s1 := 0; sp_s2 := 0;
+                       sp_infos := [ {| i_peer := false; i_cons := false;
+                                        i_segid := i_segid i; i_ts := i_ts i |} ];
+                       sp_hops := [h2; h1] |})) /\
+  (forall s, reverse_path (PEpic s) = reverse_path (PScion s)) /\
+  reverse_path PEmpty = Some PEmpty /\
+  (forall ty, reverse_path (PRaw ty) = None) /\
+  (forall p q, reverse_path p = Some q -> path_type q = 0 \/ path_type q = 1).
+Proof.
+  split; [exact reverse_onehop|]. split; [exact reverse_epic|]. split; [reflexivity|].
+  split; [reflexivity|]. intros p q H.
+  destruct (reverse_path_type p q H) as [-> | [s ->]]; [now left | now right].
+Qed.
+Print Assumptions C44_reverse_other_paths.
 
 (** Everything else is dropped: each outcome is a drop, a forward to a destination the
     datagram names that equals the outer destination (dispatcher function enabled), or the
@@ -157,9 +195,14 @@ Proof.
 Qed.
 Print Assumptions C44_disabled_only_info.
 
-(** Over any sequence of received datagrams: whatever was received before, a datagram is
-    handed on only to a destination it names itself and that equals its own outer destination. *)
-Theorem C44_no_reflection_over_histories : forall c (h : list (dgram * option ip * (ip * N))),
+(** The two statements above, for every element of any sequence of received datagrams.
+    This is a pointwise statement: [process] has no state.  The real Server reuses its layer
+    structs and output buffer from one datagram to the next; that its treatment of a datagram
+    does not depend on the datagrams before it is NOT proved here — it is what the
+    correspondence step checks on every run, by giving each datagram of the generated sequence
+    both to a fresh Server and to the one long-lived Server of the run and demanding
+    model = fresh = long-lived (spec/C44.json, assumptions). *)
+Theorem C44_no_reflection_pointwise : forall c (h : list (dgram * option ip * (ip * N))),
   Forall (fun x => let '(d, ul, prev) := x in
             forall a port, process c d ul prev = Forward a port ->
               (exists p, d = Pkt p /\ legit_dest c p a port) /\
@@ -170,19 +213,55 @@ Proof.
   - eapply C44_underlay_match; eassumption.
   - now apply process_forward in H as (p & _ & Ed & _).
 Qed.
-Print Assumptions C44_no_reflection_over_histories.
+Print Assumptions C44_no_reflection_pointwise.
 
-(** The oracle evaluated on the implementation's observations holds on the model ... *)
-Theorem C44_oracle_holds_on_model : forall c d ul prev,
+(** Open finding scmp-dst-type-unchecked.  getDstSCMP builds the destination from RawDstAddr
+    with netip.AddrFromSlice and never looks at DstAddrType: an SCMP echo / traceroute reply or
+    error whose SCION destination is a service address (or of an unassigned 4- or 16-byte
+    type) is handed on to the IP address spelled by those bytes.  Witness: an echo reply to the
+    service address 0x0a00 0x0001 arriving for 10.0.0.1 goes to 10.0.0.1:4660. *)
+Definition kf_pkt : pkt :=
+  {| dst_ia := 1; src_ia := 2; dst_t := 4; dst_raw := [10; 0; 0; 1]; src_t := 0; src_raw := [10; 0; 0; 2];
+     pth := PEmpty; hbh := false; e2e := None; l4p := L4Scmp 129 0 [18; 52; 0; 1] QBad |}.
+
+Theorem C44_scmp_dst_type_refuted :
+  exists c d ul prev a port,
+    process c d ul prev = Forward a port /\
+    (forall p, d = Pkt p -> ~ legit_dest_strict c p a port) /\
+    oracle c d ul prev (to_obs (process c d ul prev)) = false.
+Proof.
+  exists (MkCfg true []), (Pkt kf_pkt), (Some (V4 167772161)), (V4 1, 1), (V4 167772161), 4660.
+  split; [vm_compute; reflexivity|]. split; [|vm_compute; reflexivity].
+  intros p E [_ H]. injection E as <-.
+  specialize (H 129 0 [18; 52; 0; 1] QBad eq_refl). vm_compute in H. discriminate.
+Qed.
+Print Assumptions C44_scmp_dst_type_refuted.
+
+(** Outside that class (SCMP non-request with a destination that is not of an IP type) every
+    forward goes to a destination the strict specification allows ... *)
+Theorem C44_dst_strict_except_known : forall c d ul prev a port,
+  known_scmp_dst_type d = false ->
+  process c d ul prev = Forward a port ->
+  exists p, d = Pkt p /\ legit_dest_strict c p a port.
+Proof.
+  intros c d ul prev a port K H.
+  destruct (forward_strict_except_known c d ul prev a port K H) as (p & -> & D).
+  exists p. split; [reflexivity | now apply dest_ok_strict_legit].
+Qed.
+Print Assumptions C44_dst_strict_except_known.
+
+(** ... and the oracle evaluated on the implementation's observations holds on the model. *)
+Theorem C44_oracle_except_known : forall c d ul prev,
+  known_scmp_dst_type d = false ->
   oracle c d ul prev (to_obs (process c d ul prev)) = true.
-Proof. exact oracle_model. Qed.
-Print Assumptions C44_oracle_holds_on_model.
+Proof. exact oracle_model_except_known. Qed.
+Print Assumptions C44_oracle_except_known.
 
-(** ... and an observed forward it accepts is one the property allows. *)
+(** An observed forward the oracle accepts is one the (strict) property allows. *)
 Theorem C44_oracle_sound : forall c d ul prev a port same,
   oracle c d ul prev (OForward a port same) = true ->
   same = true /\ is_disp c = true /\
-  exists p, d = Pkt p /\ legit_dest c p a port /\ same_host a ul = true.
+  exists p, d = Pkt p /\ legit_dest_strict c p a port /\ same_host a ul = true.
 Proof. exact oracle_forward_sound. Qed.
 Print Assumptions C44_oracle_sound.
 
